@@ -853,7 +853,7 @@ theorem concat_ok_seq (inv : Inv sz s) {x y : Nat} {lx ly : RawList}
     have ⟨x1, x2, x3, x4, _, ok1⟩ := rawExtend_ok he1 (RawOk_locked ok0 true) (RawOk_locked okx true)
     obtain ⟨S4, hS4⟩ : ∃ S4, S4 = ({ (S3.setAlloc s.allocs.length (some ln1)) with live := S3.live + lx.len } : St) := ⟨_, rfl⟩
     have st4 : concatStep sz x y (S3, some s.allocs.length) (.extendFrom .self_) = .ok (S4, some s.allocs.length) := by
-      simp only [concatStep, resolve, g3n, g3x, he1, hS4]
+      simp only [concatStep, resolve, g3n, g3x, he1, hS4, extend_clone_count_eq]
       simp
     have g4 : ∀ b, S4.getAlloc b = if s.allocs.length = b then some ln1 else S3.getAlloc b := by
       intro b; rw [hS4]; exact getAlloc_setAlloc_live g3n _ b
@@ -896,7 +896,7 @@ theorem concat_ok_seq (inv : Inv sz s) {x y : Nat} {lx ly : RawList}
       have ⟨y1, y2, y3, y4, _, ok2⟩ := rawExtend_ok he2 ok1 (RawOk_locked oky true)
       obtain ⟨S7, hS7⟩ : ∃ S7, S7 = ({ (S6.setAlloc s.allocs.length (some ln2)) with live := S6.live + ly.len } : St) := ⟨_, rfl⟩
       have st7 : concatStep sz x y (S6, some s.allocs.length) (.extendFrom .other) = .ok (S7, some s.allocs.length) := by
-        simp only [concatStep, resolve, g6n, g6y, he2, hS7]
+        simp only [concatStep, resolve, g6n, g6y, he2, hS7, extend_clone_count_eq]
         simp [k1]
       have g7 : ∀ b, S7.getAlloc b = if s.allocs.length = b then some ln2 else S6.getAlloc b := by
         intro b; rw [hS7]; exact getAlloc_setAlloc_live g6n _ b
@@ -1010,7 +1010,7 @@ theorem concat_ok_same (inv : Inv sz s) {x : Nat} {lx : RawList} (hx : s.getAllo
     have ⟨x1, x2, x3, x4, _, ok1⟩ := rawExtend_ok he1 (RawOk_locked ok0 true) (RawOk_locked okx true)
     obtain ⟨S4, hS4⟩ : ∃ S4, S4 = ({ (S3.setAlloc s.allocs.length (some ln1)) with live := S3.live + lx.len } : St) := ⟨_, rfl⟩
     have st4 : concatStep sz x x (S3, some s.allocs.length) (.extendFrom .self_) = .ok (S4, some s.allocs.length) := by
-      simp only [concatStep, resolve, g3n, g3x, he1, hS4]
+      simp only [concatStep, resolve, g3n, g3x, he1, hS4, extend_clone_count_eq]
       simp
     have g4 : ∀ b, S4.getAlloc b = if s.allocs.length = b then some ln1 else S3.getAlloc b := by
       intro b; rw [hS4]; exact getAlloc_setAlloc_live g3n _ b
@@ -1031,7 +1031,7 @@ theorem concat_ok_same (inv : Inv sz s) {x : Nat} {lx : RawList} (hx : s.getAllo
       have ⟨y1, y2, y3, y4, _, ok2⟩ := rawExtend_ok he2 ok1 (RawOk_locked okx true)
       obtain ⟨S5, hS5⟩ : ∃ S5, S5 = ({ (S4.setAlloc s.allocs.length (some ln2)) with live := S4.live + lx.len } : St) := ⟨_, rfl⟩
       have st5 : concatStep sz x x (S4, some s.allocs.length) (.extendFrom .self_) = .ok (S5, some s.allocs.length) := by
-        simp only [concatStep, resolve, g4n, g4x, he2, hS5]
+        simp only [concatStep, resolve, g4n, g4x, he2, hS5, extend_clone_count_eq]
         simp [k1]
       have g5 : ∀ b, S5.getAlloc b = if s.allocs.length = b then some ln2 else S4.getAlloc b := by
         intro b; rw [hS5]; exact getAlloc_setAlloc_live g4n _ b
@@ -1137,7 +1137,7 @@ theorem concat_ok_tail (inv : Inv sz s) {x y : Nat} {lx ly : RawList}
     have ⟨x1, x2, x3, x4, _, ok1⟩ := rawExtend_ok he1 (RawOk_locked ok0 true) (RawOk_locked okx true)
     obtain ⟨S5, hS5⟩ : ∃ S5, S5 = ({ (S4.setAlloc s.allocs.length (some ln1)) with live := S4.live + lx.len } : St) := ⟨_, rfl⟩
     have st5 : concatStep sz x y (S4, some s.allocs.length) (.extendFrom .self_) = .ok (S5, some s.allocs.length) := by
-      simp only [concatStep, resolve, g4n, g4x, he1, hS5]
+      simp only [concatStep, resolve, g4n, g4x, he1, hS5, extend_clone_count_eq]
       simp
     have g5 : ∀ b, S5.getAlloc b = if s.allocs.length = b then some ln1 else S4.getAlloc b := by
       intro b; rw [hS5]; exact getAlloc_setAlloc_live g4n _ b
@@ -1158,7 +1158,7 @@ theorem concat_ok_tail (inv : Inv sz s) {x y : Nat} {lx ly : RawList}
       have ⟨y1, y2, y3, y4, _, ok2⟩ := rawExtend_ok he2 ok1 (RawOk_locked oky true)
       obtain ⟨S6, hS6⟩ : ∃ S6, S6 = ({ (S5.setAlloc s.allocs.length (some ln2)) with live := S5.live + ly.len } : St) := ⟨_, rfl⟩
       have st6 : concatStep sz x y (S5, some s.allocs.length) (.extendFrom .other) = .ok (S6, some s.allocs.length) := by
-        simp only [concatStep, resolve, g5n, g5y, he2, hS6]
+        simp only [concatStep, resolve, g5n, g5y, he2, hS6, extend_clone_count_eq]
         simp [k1]
       have g6 : ∀ b, S6.getAlloc b = if s.allocs.length = b then some ln2 else S5.getAlloc b := by
         intro b; rw [hS6]; exact getAlloc_setAlloc_live g5n _ b
